@@ -811,7 +811,9 @@ func (w *WAL) truncateHeadLocked(newMin uint64) error {
 			// If the segment is the tail (unsealed) or a sealed segment that contains
 			// this new min then we've found the new head.
 			if seg.SealTime.IsZero() {
-				maxIdx = newState.lastIndex()
+				// Use the last index from before we started removing segments from
+				// newState, lastIndex() depends on them when the tail is empty.
+				maxIdx = oldLastIndex
 				// This is the tail, check if it actually has any content to keep
 				if maxIdx >= newMin {
 					head = &seg
@@ -825,7 +827,10 @@ func (w *WAL) truncateHeadLocked(newMin uint64) error {
 			toDelete[seg.ID] = seg.BaseIndex
 			toClose = append(toClose, seg.r)
 			newState.segments = newState.segments.Delete(seg.BaseIndex)
-			nTruncated += (maxIdx - seg.MinIndex + 1) // +1 because MaxIndex is inclusive
+			if maxIdx >= seg.MinIndex {
+				// Don't count anything for an empty tail segment.
+				nTruncated += (maxIdx - seg.MinIndex + 1) // +1 because MaxIndex is inclusive
+			}
 		}
 
 		// There may not be any segments (left) but if there are, update the new
